@@ -10,16 +10,34 @@ TECH = ("bounded model checking of the compiled crate (Kani 0.68 -> CBMC 6.11 ->
         "counterexamples replayed natively against the real build")
 
 P = {
- "C01": ("§5 C01", "Base (constructors, bulk builders) plus inductive step: from EVERY max-heap-ordered, structurally consistent state of n elements (all slot/position permutations, all priorities incl. ties and 0/255, all key sets) one call of each mutating operation re-establishes the heap order, peek() >= every stored priority, and pop/pop_if/peek_mut address what peek reported. Holds for every history whose queue never exceeds the stated size."),
- "C02": ("§5 C02", "Same induction for the min-max heap: ORD_mm re-established by every operation from every ordered state; peek_min/peek_max are true extremes over all stored priorities; pop_*/pop_*_if/peek_*_mut address the peeked element; sizes 1,2,3 separately, identity-table states at n>=15 in the thorough tier."),
- "C03": ("§5 C03", "Every operation's return value and effect on the abstract contents (key -> stored item value, priority) equals a direct-address reference table, from every reachable-shaped pre-state; read back through raw slots and through get/get_priority/get_mut/len/is_empty with a symbolic probe key."),
- "C04": ("§5 C04", "From every structurally consistent state WITHOUT any order requirement (covers leaked iter_mut) every operation passes all of Kani's checks (no panic, no overflow, no out-of-bounds/dangling access through any get_unchecked) and ends structurally consistent with len() agreeing with all tables."),
+ "C01": ("§5 C01", "Base (constructors, From<Vec>, FromIterator, conversion from DoublePriorityQueue) plus inductive step: from EVERY max-heap-ordered, structurally consistent state of n elements (all slot/position permutations, all priorities incl. ties and 0/255, all key sets) one call of each mutating operation re-establishes the heap order, peek() >= every stored priority (quantified over the raw slots), and pop/pop_if/peek_mut address what peek reported. Holds for every history whose queue never exceeds the stated size."),
+ "C02": ("§5 C02", "Same induction for the min-max heap: ORD_mm re-established by every operation from every ordered state; peek_min/peek_max are true extremes over all stored priorities; pop_*/pop_*_if/peek_*_mut address the peeked element; sizes 0..3 separately; beyond the fully symbolic sizes the obligation is case-split on the position of the addressed element (identity tables)."),
+ "C03": ("§5 C03", "Every operation's return value and effect on the abstract contents (key -> stored item value, priority) equals a direct-address reference table, from every structurally consistent pre-state (even unordered ones); read back through raw slots and through get/get_priority/get_mut/len/is_empty with a symbolic probe key, iter/into_iter/into_vec as multisets."),
+ "C04": ("§5 C04", "From every structurally consistent state WITHOUT any order requirement (covers a leaked iter_mut) every operation passes all of Kani's checks (no panic, no arithmetic overflow, no out-of-bounds/dangling access through any get_unchecked) and ends structurally consistent with len() agreeing with all tables; constructors and bulk builders likewise."),
+ "C05": ("§5 C05", "Bounded claim only: for every heap-ordered state up to the stated sizes and every argument, the number of Ord calls on the priority type made by one operation is within the single-path budget (one sift-up plus one sift-down; table in harness/src/cost.rs); peeks/lookups 0 (peek_max <= 1); a full rebuild within 2n / 7n. The asymptotic statement for unbounded n is NOT claimed."),
+ "C06": ("§5 C06", "From every ordered state of n elements, complete consumption through into_sorted_iter (PriorityQueue; DoublePriorityQueue under every interleaving of next/next_back incl. calls after exhaustion) and the into_*sorted_vec functions yields every element once, each time an extreme of what remains; len() counts down exactly."),
+ "C07": ("§5 C07", "From<Vec> first-wins, FromIterator/extend last-wins, append (receiver wins unless other longer, other left empty), conversions: contents equal the reference and the result is correctly ordered, for every legal size_hint class (lower bound 0, upper None, exact, far above, usize::MAX) and both extend strategies; two different hints on the same sequence give the same queue."),
+ "C08": ("§5 C08", "retain/retain_mut (every concrete verdict pattern, symbolic rewrites), iter_mut (symbolic consumed prefix, symbolic rewrites, then drop) and the pop_if family (both verdicts, symbolic rewrite) from every ordered state: predicate call discipline, survivors/contents as requested, order restored."),
+ "C09": ("§5 C09", "Protocol of both iter_mut iterators under a symbolic program of next/next_back calls (n+2 calls, so calls after exhaustion are included): all references handed out pairwise distinct (pointer comparison), every element exactly once, then None; where an exact size is declared, len() == size_hint() == remaining before every call."),
+ "C10": ("§5 C10", "Crash point turned into data: at a symbolic k-th user callback (Ord on priorities, Eq/Hash on items, closures) inside each operation the raw tables are probed for mutual consistency at that instant; continuations are the C04 obligations from order-free states; leaked iter_mut/drain followed by use. Unwinding itself is not executed by the solver; cuts in DESIGN.md §4."),
+ "C11": ("§5 C11", "push_increase/push_decrease from every ordered state, symbolic item and offer: absent / strictly better / equal / worse are distinguished; in the not-better cases the complete raw snapshot is bit-identical; order and contents otherwise as the reference."),
+ "C12": ("§5 C12", "Items carry a payload ignored by Eq/Hash: updates through push/push_increase/decrease/change_priority (borrowed and owned lookup key with a different payload) leave the stored payload; payloads written through get_mut/peek*_mut/iter_mut are what the reference then holds; borrowed and owned keys address the same element."),
+ "C13": ("§5 C13", "Protocol of iter, into_iter, drain and the sorted iterators under a symbolic program of next/next_back: every element once, None afterwards, never the same element from both ends; every type that declares ExactSizeIterator has len() == size_hint() == remaining before every call (the contract std adaptors rely on)."),
+ "C14": ("§5 C14", "Two independent symbolic states (different arrangement and capacity): == holds iff the (item, priority) sets coincide, is symmetric and reflexive (hence an equivalence within the bound); a clone has the same tables, is equal, and neither side observes a push on the other."),
+ "C15": ("§5 C15", "A purpose-built serde format hands the crate's Visitor symbolic pair sequences (concrete key pattern with repeats, symbolic payloads/priorities, with and without size hint) and collects what Serialize emits: round trips between both kinds give equal, ordered, usable queues; arbitrary sequences give Err or an ordered queue with each distinct item once; never a panic."),
+ "C16": ("§5 C16", "drain with a symbolic consumption pattern from either end, then drop or mem::forget, and clear: yielded elements are distinct stored elements (all of them when fully consumed); afterwards the queue is empty, structurally consistent, peeks/pops None, and two following pushes behave as on a fresh queue."),
+ "C17": ("§5 C17", "reserve/reserve_exact/try_reserve/try_reserve_exact/shrink_to_fit/with_capacity with concrete request classes (0, 1, 5, and byte-size-overflowing requests for try_*): raw snapshot unchanged, capacity() lower bounds, huge try_* returns Err without panic, a following push agrees with the reference. capacity() is the model map's; allocator refusal is outside the claim."),
+ "C18": ("§5 C18", "The crate is instantiated with a hasher whose every finish() is a fresh unconstrained u64: the keyed operations still meet the reference for EVERY sequence of hash values (consistent or not, colliding or not), i.e. the crate never depends on a hash value. indexmap's own collision handling is trusted, not checked."),
 }
+
+# properties whose quick check runs clean on the current tree
+CLAIMED = set(open(os.path.join(ROOT, "claimed.txt")).read().split())
+
 
 def main():
     checks = []
     claimed = sorted({p for i in I.INSTANCES for p in i["props"]})
-    claimed = [p for p in claimed if p in P]
+    claimed = [p for p in claimed if p in P and p in CLAIMED]
     for p in claimed:
         ref, text = P[p]
         checks.append(dict(
